@@ -1,7 +1,11 @@
 /- Property C04: the property theorems (and nothing else). -/
 import Frugal.Proofs.SizeExact
 import Frugal.Proofs.BufferLemmas
-import Frugal.Props.Instances
+import Frugal.Props.Inst.Params
+import Frugal.Props.Inst.F_facts_bufferContract
+import Frugal.Props.Inst.F_skeleton_encoder
+import Frugal.Props.Inst.F_valid_headers
+import Frugal.Props.Inst.F_valid_sizes
 namespace Frugal.C04
 open Frugal
 
